@@ -86,6 +86,7 @@ def run_witnesses(pid, mod, chk):
         # on a tree where the property holds every witness must be applicable
         for r in skipped:
             chk.note("witness %s not applicable: %s" % (r[0], r[2]))
+            print("WITNESS-SKIPPED %s %s: %s" % (pid, r[0], r[2]))
 
 
 def main(argv=None):
